@@ -23,7 +23,7 @@ def run(ctx):
     num = 2000 if ctx.thorough else 300
     for name in ["Elastic", "Thermal", "MatSimu"]:
         lc.simulate_and_replay(ctx, name, lc.STORE_ACTS, num, 14, ctx.seed + 11, label="store")
-    for name in ["Beam", "Elastic3D", "WeakForms", "HyperElastic", "PhaseField"]:
+    for name in ["Beam", "BeamTimo", "Elastic3D", "WeakForms", "HyperElastic", "PhaseField", "InElastic"]:
         lc.simulate_and_replay(ctx, name, lc.STORE_ACTS, num // 3, 14, ctx.seed + 12, label="store")
     # simulations whose stored iterations carry internal variables (InElastic): spec/InelasticCommit.tla, behaviours with SaveIter / SetIter
     # in every order replayed with content hashes of displacement and internal state
